@@ -3,7 +3,8 @@ NOEX = dict(re=r'noexcept\(\s*noexcept\([^;{]*?\)\)\)', to='', count='4+', why='
 
 
 def grp(name, harness, fns, expect, unwind=10, bounded='spin iterations <= VX_BUDGET(6)+3 (memoryless loops)', timeout=300):
-    return dict(name=name, harness=harness, enforce=[], dfcc=False, functions=fns, expect=expect, props=['C22'], timeout=timeout, unwind=unwind, bounded=bounded)
+    return dict(name=name, harness=harness, enforce=[], dfcc=False, functions=fns, expect=expect, props=['C22'], timeout=timeout, unwind=unwind, bounded=bounded,
+                replay=dict(driver='replay.cpp', case=name, vars=[]))
 
 
 SP = 'cds::sync::spin_lock<Backoff>::'
